@@ -533,3 +533,4 @@ theorem plain_scaled (neg : Bool) (M f d : Nat) (hM : 0 < M) (hf : f ≤ 27)
   exact toInt_fin_of_bounds neg mw ew _ hmw t1 t2
 
 end Rangers.Decimal
+
